@@ -8,7 +8,7 @@ export GOFLAGS=-mod=mod GOPROXY=off GOSUMDB=off GOTOOLCHAIN=local
 log=$src/verify.log
 {
 git -C /repo worktree remove --force $wt 2>/dev/null
-git -C /repo worktree add -q --detach $wt HEAD || exit 2
+git -C /repo worktree add -q --detach $wt ${BASE:-HEAD} || exit 2
 cd $wt
 if ! git apply $src/patch.diff 2>/dev/null && ! git apply -3 $src/patch.diff 2>/dev/null && ! patch -p1 -s --no-backup-if-mismatch < $src/patch.diff; then echo "RESULT applies=no"; cd /; git -C /repo worktree remove --force $wt; exit 1; fi
 git reset -q
